@@ -15,7 +15,7 @@ RULE = ("cases = (operator, operand values, producer forms); operands from the b
         "(10^30 + N) - 10^30); distinct = distinct (expression text); non-trivial = at least one "
         "operand outside [-2^31, 2^31] or held in big representation")
 ASSUMPTIONS = ["Python int arithmetic is exact", "zero divisors and negative shift counts are excluded here (C14)"]
-PLAN = {"quick": {"triples": 160000}, "thorough": {"triples": 1200000}}
+PLAN = {"quick": {"triples": 500000}, "thorough": {"triples": 1200000}}
 
 REG = dict(level="exploration", min_nontrivial=1000,
            technique="runtime reference-model monitor (Python int oracle) over seeded operand/producer sweeps with representation flag observed",
